@@ -154,3 +154,7 @@ impl ExactSizeIterator for IntoIter {
         self.iter.len()
     }
 }
+
+#[cfg(kani)]
+#[path = "/verif/kani/cluster.rs"]
+mod verif_kani;
